@@ -110,3 +110,16 @@ pub proof fn lemma_item_prologue_stable(a: Seq<ModuleItem>, b: Seq<ModuleItem>, 
 {
     assert forall|i: int| 0 <= i < k implies item_is_directive(#[trigger] b[i]) by { assert(item_is_directive(a[i])); }
 }
+
+// a pass that returns directives unchanged and keeps non-directives non-directive keeps every statement prologue
+pub proof fn lemma_prologue_stable(a: Seq<Stmt>, b: Seq<Stmt>, k: int)
+    requires
+        a.len() == b.len(),
+        forall|i: int| 0 <= i < a.len() ==> (is_directive(#[trigger] a[i]) ==> b[i] == a[i]) && (!is_directive(a[i]) ==> !is_directive(b[i])),
+        is_prologue_len(a, k),
+    ensures
+        is_prologue_len(b, k),
+        b.subrange(0, k) =~= a.subrange(0, k),
+{
+    assert forall|i: int| 0 <= i < k implies is_directive(#[trigger] b[i]) by { assert(is_directive(a[i])); }
+}
